@@ -105,6 +105,11 @@ type sched struct {
 	promoted map[string]bool // sites found shared during this execution
 	deadlock string
 	points   int
+	// epilogue: run alone after every body has finished (its effects
+	// happen-after all of them): "the node is still usable afterwards"
+	epilogue       func() string
+	epilogueResult string
+	epilogueRan    bool
 }
 
 var curSched *sched
@@ -396,12 +401,43 @@ func (s *sched) run(prelude func(), bodies []func() string) {
 		<-s.yield
 	}
 	s.cur = nil
+	if s.epilogue != nil && s.deadlock == "" {
+		ev := make(vclock, n+1)
+		for _, t := range s.threads {
+			ev.join(t.vc)
+		}
+		ev[n]++
+		et := spawn(n, ev, s.epilogue)
+		s.threads = append(s.threads, et)
+		for !et.done {
+			if !s.enabled(et) {
+				s.deadlock = "every thread has returned, yet a later call on the node blocks at " + et.pending.site + " (a lock was left held)"
+				break
+			}
+			s.cur = et
+			et.resume <- struct{}{}
+			<-s.yield
+		}
+		s.cur = nil
+		s.threads = s.threads[:n]
+		if et.done {
+			s.epilogueRan = true
+			if et.panicv != nil {
+				s.epilogueResult = fmt.Sprintf("panic: %v", et.panicv)
+			} else {
+				s.epilogueResult = et.result
+			}
+		}
+	}
 }
 
 // runScheduled runs bodies under a fresh scheduler with the verifrt hooks
 // attached; loadPoint is called by the storage seam for every block load.
-func runScheduled(x *xplore.Ctx, shared map[string]bool, prelude func(), bodies []func() string) *sched {
+func runScheduled(x *xplore.Ctx, shared map[string]bool, prelude func(), bodies []func() string, epilogue ...func() string) *sched {
 	s := newSched(x, shared)
+	if len(epilogue) > 0 {
+		s.epilogue = epilogue[0]
+	}
 	curSched = s
 	setFieldHook(func(addr uintptr, kind int, site string) {
 		if cs := curSched; cs != nil && cs.cur != nil {
